@@ -30,6 +30,8 @@ type RWaitList interface {
 type WaitList struct {
 	list  map[types.Address]*Model
 	dirty map[types.Address]struct{}
+	// addresses whose emptied record was removed by Commit; their models leave the cache in SetImmutableTree
+	removed []types.Address
 
 	db atomic.Value
 
@@ -64,6 +66,18 @@ func (wl *WaitList) immutableTree() *iavl.ImmutableTree {
 
 func (wl *WaitList) SetImmutableTree(immutableTree *iavl.ImmutableTree) {
 	wl.db.Store(immutableTree)
+
+	wl.lock.Lock()
+	for _, address := range wl.removed {
+		if _, dirty := wl.dirty[address]; dirty {
+			continue
+		}
+		if w := wl.list[address]; w != nil && len(w.List) == 0 {
+			delete(wl.list, address)
+		}
+	}
+	wl.removed = nil
+	wl.lock.Unlock()
 }
 
 func (wl *WaitList) Export(state *types.AppState) {
@@ -149,8 +163,10 @@ func (wl *WaitList) Commit(db *iavl.MutableTree, version int64) error {
 			db.Set(path, data)
 		} else {
 			db.Remove(path)
+			// the empty model stays in the cache until the committed version can be read: a reader that asks for
+			// this address in between would otherwise load the previous, non-empty record into the cache
 			wl.lock.Lock()
-			delete(wl.list, address)
+			wl.removed = append(wl.removed, address)
 			wl.lock.Unlock()
 		}
 		w.lock.RUnlock()
